@@ -1,7 +1,8 @@
 (* Correspondence entry point for the concrete integer-core semantics (Model/SemCore.v, C01): the harness generates functions over
    the core operators (with real counter-bounded loops, branches taken with surplus values on the stack, br_table, return, traps,
-   dead code, nops), node executes them on fresh instances, and [check_core] runs the Coq interpreter on the same body, arguments
-   and initial globals and compares the results (bit patterns), the trap verdict and the final globals. *)
+   dead code, nops, loads / stores / memory.size / memory.grow on one memory), node executes them on fresh instances, and
+   [check_core] runs the Coq interpreter on the same body, arguments, initial globals and (zeroed) memory of [cc_pages] pages,
+   and compares the results (bit patterns), the trap verdict, the final globals, a checksum of the final memory and its size. *)
 From Coq Require Import NArith ZArith List Bool. Import ListNotations.
 From WV Require Import Gen.Ops Model.Common Model.IR Model.ParseFn Model.ParseSpec Model.Sem Model.SemCore.
 Open Scope N_scope.
@@ -13,8 +14,10 @@ Record corecase := {
   cc_locals : list valty;
   cc_results : list valty;
   cc_g0 : Z; cc_g1 : Z;                         (* initial values of the i32 / i64 global *)
+  cc_pages : N; cc_maxpages : N;                (* the memory: initial size, and the size memory.grow may reach (both in pages) *)
   cc_body : list rt;
-  cc_calls : list (list Z * cres * N * N)       (* arguments; observed result; observed final g0, g1 (bit patterns) *)
+  cc_calls : list (list Z * cres * N * N * N * N)
+     (* arguments; observed result; observed final g0, g1 (bit patterns); observed [memsum] of the final memory; observed final size in pages *)
 }.
 
 Definition zero_of (t : valty) : val := match t with VT_I64 => VI64 0 | _ => VI32 0 end.
@@ -31,18 +34,32 @@ Definition results_of (c : corecase) (s : st) : option (list N) :=
   if (Nat.eqb (length top) n) && forallb (fun p => ty_ok (fst p) (snd p)) (combine (cc_results c) top) then Some (map bits top) else None.
 Definition glob_bits (s : st) (k : N) : N := match alookup k (globs s) with Some v => bits v | None => 0 end.
 
-Definition check_call (c : corecase) (call : list Z * cres * N * N) : N :=
-  let '(args, expect, g0, g1) := call in
+(* checksum of a memory: (sum over the non-zero bytes of byte * (1 + address mod 251)) mod 2^32.  The byte map of the machine
+   starts empty and is only changed by [mset], so every address occurs at most once. *)
+Definition memsum (m : list (N * N)) : N :=
+  fold_left (fun acc p => (acc + (snd p mod 256) * (1 + fst p mod 251)) mod 4294967296) m 0.
+Definition init_st (c : corecase) (args : list Z) : st :=
+  {| stk := []; locs := number 0 (map (fun p => arg_of (fst p) (snd p)) (combine (cc_params c) args) ++ map zero_of (cc_locals c));
+     globs := [(0, VI32 (z32 (cc_g0 c))); (1, VI64 (z64 (cc_g1 c)))]; labs := [];
+     mem := []; pages := cc_pages c; max_pages := cc_maxpages c |}.
+
+(* 0 = agreement; 41 result / trap verdict differs; 42 globals differ; 43 stuck; 44 result shape; 45 out of fuel;
+   46 memory differs; 47 memory size differs *)
+Definition check_call (c : corecase) (call : list Z * cres * N * N * N * N) : N :=
+  let '(args, expect, g0, g1, msum, pgs) := call in
   let tys := fun i => nth_error (cc_tys c) (N.to_nat i) in
-  let s0 := {| stk := []; locs := number 0 (map (fun p => arg_of (fst p) (snd p)) (combine (cc_params c) args) ++ map zero_of (cc_locals c));
-               globs := [(0, VI32 (z32 (cc_g0 c))); (1, VI64 (z64 (cc_g1 c)))]; labs := [] |} in
+  let s0 := init_st c args in
+  let side (s : st) : N :=
+    if negb ((glob_bits s 0 =? g0) && (glob_bits s 1 =? g1)) then 42
+    else if negb (memsum (mem s) =? msum) then 46
+    else if negb (pages s =? pgs) then 47 else 0 in
   let fin (s : st) (r : option (list N)) :=
     match r, expect with
-    | Some vs, CROk ws => if negb (nl_eqb vs ws) then 41 else if (glob_bits s 0 =? g0) && (glob_bits s 1 =? g1) then 0 else 42
-    | None, CRTrap => if (glob_bits s 0 =? g0) && (glob_bits s 1 =? g1) then 0 else 42
+    | Some vs, CROk ws => if negb (nl_eqb vs ws) then 41 else side s
+    | None, CRTrap => side s
     | _, _ => 41
     end in
-  match run_core idN idN tys 4000 (cc_body c) s0 with
+  match run_core idN idN idN tys 4000 (cc_body c) s0 with
   | Fall s => match results_of c s with Some vs => fin s (Some vs) | None => 44 end
   | Br _ s => match results_of c s with Some vs => fin s (Some vs) | None => 44 end
   | Stop Return s => match results_of c s with Some vs => fin s (Some vs) | None => 44 end
@@ -54,20 +71,19 @@ Definition check_call (c : corecase) (call : list Z * cres * N * N) : N :=
 Definition check_core (c : corecase) : N :=
   fold_left (fun acc call => if acc =? 0 then check_call c call else acc) (cc_calls c) 0.
 
-(* the same comparison on the machine WITHOUT label records (unwind = identity): used only to measure how many of the generated cases
+(* the same comparison (memory ignored) on the machine WITHOUT label records (unwind = identity): used only to measure how many of the generated cases
    take a branch with surplus values on the stack, i.e. would expose an inexact treatment of labels *)
-Definition check_call_lax (c : corecase) (call : list Z * cres * N * N) : N :=
-  let '(args, expect, g0, g1) := call in
+Definition check_call_lax (c : corecase) (call : list Z * cres * N * N * N * N) : N :=
+  let '(args, expect, g0, g1, _, _) := call in
   let tys := fun i => nth_error (cc_tys c) (N.to_nat i) in
-  let s0 := {| stk := []; locs := number 0 (map (fun p => arg_of (fst p) (snd p)) (combine (cc_params c) args) ++ map zero_of (cc_locals c));
-               globs := [(0, VI32 (z32 (cc_g0 c))); (1, VI64 (z64 (cc_g1 c)))]; labs := [] |} in
+  let s0 := init_st c args in
   let same (s : st) (r : option (list N)) :=
     match r, expect with
     | Some vs, CROk ws => if nl_eqb vs ws && (glob_bits s 0 =? g0) && (glob_bits s 1 =? g1) then 0 else 1
     | None, CRTrap => if (glob_bits s 0 =? g0) && (glob_bits s 1 =? g1) then 0 else 1
     | _, _ => 1
     end in
-  match run_core_lax idN idN tys 4000 (cc_body c) s0 with
+  match run_core_lax idN idN idN tys 4000 (cc_body c) s0 with
   | Fall s | Br _ s | Stop Return s => same s (results_of c s)
   | Stop Trap s => same s None
   | _ => 1
